@@ -243,20 +243,93 @@ func (c *FileBackupClient) FetchSnapshot(ctx context.Context, name string) (_ io
 			}
 		}
 	}()
+	var pageSize uint32
 	for _, filename := range filenames {
 		f, err := os.Open(filepath.Join(dir, filename))
 		if err != nil {
 			return nil, err
 		}
+
+		// Files with different page sizes cannot be compacted into one. The page
+		// size only changes when the database was deleted & recreated: the first
+		// file with the new page size holds the whole database so start there.
+		var hdr ltx.Header
+		buf := make([]byte, ltx.HeaderSize)
+		if _, err := io.ReadFull(f, buf); err != nil {
+			_ = f.Close()
+			return nil, err
+		} else if err := hdr.UnmarshalBinary(buf); err != nil {
+			_ = f.Close()
+			return nil, err
+		} else if _, err := f.Seek(0, io.SeekStart); err != nil {
+			_ = f.Close()
+			return nil, err
+		}
+		if len(rdrs) > 0 && hdr.PageSize != pageSize {
+			for _, r := range rdrs {
+				_ = r.(io.Closer).Close()
+			}
+			rdrs = rdrs[:0]
+		}
+		pageSize = hdr.PageSize
+
 		rdrs = append(rdrs, f)
 	}
 
 	// Send compaction through a pipe so we can convert it to an io.Reader.
 	pr, pw := io.Pipe()
 	go func() {
-		compactor := ltx.NewCompactor(pw, rdrs)
-		compactor.HeaderFlags = ltx.HeaderFlagCompressLZ4
-		_ = pw.CloseWithError(compactor.Compact(ctx))
+		if len(rdrs) == len(filenames) {
+			compactor := ltx.NewCompactor(pw, rdrs)
+			compactor.HeaderFlags = ltx.HeaderFlagCompressLZ4
+			_ = pw.CloseWithError(compactor.Compact(ctx))
+			return
+		}
+
+		// Earlier files were skipped: compact the rest & rewrite it as a snapshot.
+		cr, cw := io.Pipe()
+		go func() {
+			compactor := ltx.NewCompactor(cw, rdrs)
+			compactor.HeaderFlags = ltx.HeaderFlagCompressLZ4
+			_ = cw.CloseWithError(compactor.Compact(ctx))
+		}()
+		err := rewriteLTXAsSnapshot(pw, cr)
+		_ = cr.CloseWithError(err)
+		_ = pw.CloseWithError(err)
 	}()
 	return pr, nil
+}
+
+// rewriteLTXAsSnapshot copies an LTX file that holds every page of its database
+// from r to w as a snapshot, i.e. starting at the first transaction ID.
+func rewriteLTXAsSnapshot(w io.Writer, r io.Reader) error {
+	dec := ltx.NewDecoder(r)
+	if err := dec.DecodeHeader(); err != nil {
+		return err
+	}
+	hdr := dec.Header()
+	hdr.MinTXID, hdr.PreApplyChecksum = 1, 0
+
+	enc := ltx.NewEncoder(w)
+	if err := enc.EncodeHeader(hdr); err != nil {
+		return err
+	}
+
+	data := make([]byte, hdr.PageSize)
+	for {
+		var phdr ltx.PageHeader
+		if err := dec.DecodePage(&phdr, data); err == io.EOF {
+			break
+		} else if err != nil {
+			return err
+		} else if err := enc.EncodePage(phdr, data); err != nil {
+			return err
+		}
+	}
+	if err := dec.Close(); err != nil {
+		return err
+	}
+
+	enc.SetPostApplyChecksum(dec.Trailer().PostApplyChecksum)
+	return enc.Close()
 }
